@@ -71,6 +71,9 @@ def curated():
     # 15. tail block first, then the front in one write across two tables
     S.append(("lb-tail-first", [CREATE(16), HLCREATE(0, 0, 4, 2), SEEK(0, 12), WRITE(0, 4), SEEK(0, 0), WRITE(0, 12), ENDACC(0), STARTACC(0, 0, 1), READ(0, 0), ENDACC(0),
                               CLOSE(), OPEN(DFACC_READ), GET(0), CLOSE()]))
+    # 16. external element at a non-zero offset of the external file: grow, then overwrite in place near the end
+    S.append(("external-offset", [CREATE(16), HXCREATE(0, 0, 4), WRITE(0, 12), SEEK(0, 2), WRITE(0, 4), INQUIRE(0), SEEK(0, 6), WRITE(0, 4), INQUIRE(0), SEEK(0, 0), READ(0, 0), ENDACC(0), CLOSE(),
+                                OPEN(DFACC_READ), GET(0), STARTACC(0, 0, 1), SEEK(0, 8), READ(0, 4), ENDACC(0), CLOSE()]))
     return S
 
 def random_skeleton(rng):
